@@ -365,6 +365,14 @@ class Check:
                 print(f"VIOLATION property={self.prop} replay={path}")
                 print(f"  kind={kind} detail={json.dumps(jsonable(v.get('detail')))[:600]}")
                 shown += 1
+            hist = {}
+            for _c, v in self.violations:
+                key = v.get("kind", "?") + "".join(f"/{k}={v['detail'][k]}" for k in ("route", "field", "form", "via")
+                                                   if isinstance(v.get("detail"), dict) and k in v["detail"]
+                                                   and isinstance(v["detail"][k], (str, int)))
+                hist[key] = hist.get(key, 0) + 1
+            for k, n in sorted(hist.items(), key=lambda kv: -kv[1])[:25]:
+                print(f"  {n:6d} x {k}")
             print(f"{self.prop}: VIOLATED ({len(self.violations)} violating observations in {self.cases} cases, {wall:.1f}s)")
             return 1
         if status == "inconclusive":
